@@ -67,6 +67,41 @@ func (d *stubDoer) Do(r *http.Request) (*http.Response, error) {
 	return &http.Response{StatusCode: 200, Body: io.NopCloser(strings.NewReader(`{"data":null}`)), Header: http.Header{}}, nil
 }
 
+// swDoer lets several requests share ONE client while each is observed by its own stub.
+type swDoer struct{ cur *stubDoer }
+
+func (d *swDoer) Do(r *http.Request) (*http.Response, error) { return d.cur.Do(r) }
+
+// observeOn runs one request on an existing client (whose Doer is sw).
+func observeOn(cl graphql.Client, sw *swDoer, c *Case) (o *Obs) {
+	o = &Obs{}
+	defer func() {
+		if v := recover(); v != nil {
+			o.Panicked = fmt.Sprint(v)
+		}
+	}()
+	d := &stubDoer{}
+	sw.cur = d
+	marker := &struct{ x int }{42}
+	ctx := context.WithValue(context.Background(), ctxKey{}, marker)
+	req := &graphql.Request{Query: c.Query, OpName: c.OpName, Variables: variablesValue(c)}
+	var data interface{}
+	resp := &graphql.Response{Data: &data}
+	err := cl.MakeRequest(ctx, req, resp)
+	o.DoCalls = d.calls
+	if err != nil {
+		o.Err = err.Error()
+	}
+	if d.req != nil {
+		o.Method = d.req.Method
+		o.URL = d.req.URL.String()
+		o.Body = string(d.body)
+		o.CT = d.req.Header.Get("Content-Type")
+		o.CtxOK = d.req.Context().Value(ctxKey{}) == interface{}(marker)
+	}
+	return o
+}
+
 func variablesValue(c *Case) interface{} {
 	if len(c.Variables) == 0 || string(c.Variables) == "null" {
 		return nil
@@ -465,6 +500,20 @@ func GenCase(r *core.Rng, id int) *Case {
 }
 
 func runHistory(a, b2 *Case, mode int) (oa, ob *Obs) {
+	if mode == 2 {
+		// one client serves both requests, one after the other: nothing of the first may
+		// show up in the second (same method and endpoint by construction)
+		sw := &swDoer{}
+		var cl graphql.Client
+		if a.Method == "GET" {
+			cl = graphql.NewClientUsingGet(a.Endpoint, sw)
+		} else {
+			cl = graphql.NewClient(a.Endpoint, sw)
+		}
+		oa = observeOn(cl, sw, a)
+		ob = observeOn(cl, sw, b2)
+		return oa, ob
+	}
 	if mode == 0 {
 		oa = ObserveWith(a, func() { ob = Observe(b2) })
 		return oa, ob
@@ -683,9 +732,29 @@ func Run(tier string, seed int64, outDir string, replay string) (*core.Result, e
 		b2.Query, b2.Kind = "\nquery In { f }\n", "emitted"
 		a.ID, b2.ID = fmt.Sprintf("h%d.outer", h), fmt.Sprintf("h%d.inner", h)
 		a.Endpoint, b2.Endpoint = genEndpoint(rng, false), genEndpoint(rng, false)
-		oa, ob := runHistory(a, b2, h%2)
+		mode := h % 2
+		if h%3 == 2 {
+			// same client, sequential: the second request has fewer parts than the first
+			mode = 2
+			b2.Endpoint = a.Endpoint
+			a.Method = []string{"GET", "POST"}[(h/3)%2]
+			b2.Method = a.Method
+			if a.Variables == nil {
+				a.Variables = json.RawMessage(`{"first":"request"}`)
+			}
+			if a.OpName == "" {
+				a.OpName = "Outer"
+			}
+			switch (h / 6) % 3 {
+			case 0:
+				b2.Variables = nil
+			case 1:
+				b2.OpName = ""
+			}
+		}
+		oa, ob := runHistory(a, b2, mode)
 		res.Count(a.ID+a.Endpoint+a.Query+b2.Endpoint+string(b2.Variables), true)
-		res.Dist("history:" + map[bool]string{true: "nested", false: "concurrent"}[h%2 == 0])
+		res.Dist("history:" + []string{"nested", "concurrent", "same-client"}[mode])
 		for _, pr := range []struct {
 			c *Case
 			o *Obs
@@ -695,7 +764,7 @@ func Run(tier string, seed int64, outDir string, replay string) (*core.Result, e
 				continue
 			}
 			if cls, what := Oracle(pr.c, pr.o); cls != "" {
-				res.Fail(core.Failure{Case: pr.c.ID, Class: cls, What: what + " (second request built before this body was read)", Replay: map[string]interface{}{"history": []*Case{a, b2}, "mode": h % 2}})
+				res.Fail(core.Failure{Case: pr.c.ID, Class: cls, What: what + []string{" (second request built before this body was read)", " (second request built before this body was read)", " (two requests through one client, one after the other)"}[mode], Replay: map[string]interface{}{"history": []*Case{a, b2}, "mode": mode}})
 			}
 		}
 	}
